@@ -229,3 +229,21 @@ def check_instance(rep, v, text, kind):
         rep.violation("the extracted instance of " + THEOREM_OF.get(kind, kind) + " evaluates to false (model / extraction inconsistent)",
                       {"kind": "correspondence", "relation": "theorem instance", "theorem": THEOREM_OF.get(kind), "text": text,
                        "failing_input": None}, failing_input_found=False)
+
+
+def check_parser(rep, drv, text, what="text"):
+    """Parse.parse_expr (the verified expression parser) on the tokens of every expression of a text Lark accepts
+    must give the expression Lark's tree stands for; what it parses must survive printing and parsing again"""
+    cases = [c_ for c_ in impl.expression_cases(text) if c_[3] is not None]   # None: a call shape outside the modelled language
+    if not cases:
+        return 0
+    r = drv.ask(["parsetoks", [[toks, want] for _, _, toks, want in cases]])
+    for (name, src, toks, want), res in zip(cases, r["results"]):
+        if res["verdict"] != "agree" or not res["roundtrip"]:
+            rep.violation(f"the parser mirror and Lark disagree on the right-hand side of {name} in the {what}: {res['verdict']}"
+                          + ("" if res["roundtrip"] else "; print / parse round trip fails") + f"  [{src[:80]}]",
+                          {"kind": "correspondence", "relation": "Parse.parse_expr vs Lark + expressions.build_expression (shape)",
+                           "text": text, "expression": src, "failing_input": None}, failing_input_found=False)
+            return len(cases)
+    rep.count("expressions_parsed_like_lark", len(cases))
+    return len(cases)
